@@ -60,6 +60,19 @@ fn real_table(name: &str) -> Option<[Option<u16>; 256]> {
 fn chart(name: &str, b: u8) -> Option<Option<u16>> {
     const MAC_80_9F: [u16; 32] = [0xC4, 0xC5, 0xC7, 0xC9, 0xD1, 0xD6, 0xDC, 0xE1, 0xE0, 0xE2, 0xE4, 0xE3, 0xE5, 0xE7, 0xE9, 0xE8,
                                   0xEA, 0xEB, 0xED, 0xEC, 0xEE, 0xEF, 0xF1, 0xF3, 0xF2, 0xF4, 0xF6, 0xF5, 0xFA, 0xF9, 0xFB, 0xFC];
+    // code page 1252, 0x80-0x9F (defined cells) and PDFDocEncoding specials (Annex D.2)
+    const CP1252: [(u8, u16); 27] = [(0x80, 0x20AC), (0x82, 0x201A), (0x83, 0x0192), (0x84, 0x201E), (0x85, 0x2026), (0x86, 0x2020),
+        (0x87, 0x2021), (0x88, 0x02C6), (0x89, 0x2030), (0x8A, 0x0160), (0x8B, 0x2039), (0x8C, 0x0152), (0x8E, 0x017D), (0x91, 0x2018),
+        (0x92, 0x2019), (0x93, 0x201C), (0x94, 0x201D), (0x95, 0x2022), (0x96, 0x2013), (0x97, 0x2014), (0x98, 0x02DC), (0x99, 0x2122),
+        (0x9A, 0x0161), (0x9B, 0x203A), (0x9C, 0x0153), (0x9E, 0x017E), (0x9F, 0x0178)];
+    const PDFDOC: [(u8, u16); 39] = [(0x18, 0x02D8), (0x19, 0x02C7), (0x1A, 0x02C6), (0x1B, 0x02D9), (0x1C, 0x02DD), (0x1D, 0x02DB),
+        (0x1E, 0x02DA), (0x1F, 0x02DC), (0x80, 0x2022), (0x81, 0x2020), (0x82, 0x2021), (0x83, 0x2026), (0x84, 0x2014), (0x85, 0x2013),
+        (0x86, 0x0192), (0x87, 0x2044), (0x88, 0x2039), (0x89, 0x203A), (0x8A, 0x2212), (0x8B, 0x2030), (0x8C, 0x201E), (0x8D, 0x201C),
+        (0x8E, 0x201D), (0x8F, 0x2018), (0x90, 0x2019), (0x91, 0x201A), (0x92, 0x2122), (0x93, 0xFB01), (0x94, 0xFB02), (0x95, 0x0141),
+        (0x96, 0x0152), (0x97, 0x0160), (0x98, 0x0178), (0x99, 0x017D), (0x9A, 0x0131), (0x9B, 0x0142), (0x9C, 0x0153), (0x9D, 0x0161),
+        (0x9E, 0x017E)];
+    if name == "WinAnsiEncoding" { if let Some((_, u)) = CP1252.iter().find(|(x, _)| *x == b) { return Some(Some(*u)); } }
+    if name == "PDFDocEncoding" { if let Some((_, u)) = PDFDOC.iter().find(|(x, _)| *x == b) { return Some(Some(*u)); } }
     match name {
         "WinAnsiEncoding" => match b {
             0x20..=0x7E => Some(Some(b as u16)),
@@ -532,7 +545,7 @@ fn gen_doc_case(c: &mut Ctx, r: &mut Rng, tables: &[(&str, [Option<u16>; 256])])
                         let mut arr = vec![];
                         for _ in 0..(1 + r.usize(4)) {
                             if r.chance(2, 3) { let n = r.usize(6); let s: String = (0..n).map(|_| *r.pick(&rep)).collect(); arr.push(Object::String(encode_ref(&t, &s), StringFormat::Literal)); chunk.push_str(&s); }
-                            else { let k = r.range(-300, 100); arr.push(Object::Integer(k)); if k < -100 { chunk.push(' '); } }
+                            else { let k = if r.chance(1, 4) { *r.pick(&[-101i64, -100, -99]) } else { r.range(-300, 100) }; arr.push(Object::Integer(k)); if k < -100 { chunk.push(' '); } }
                         }
                         ops.push(Operation::new("TJ", vec![Object::Array(arr)]));
                         chunk.push(' ');
